@@ -8,6 +8,9 @@
    field <Class> <field> <val>           -> ok <val> | error <Class> | nofield      (convert + validate one value)
    apply <Class> <rederive> <base> <assignments>   -> error <cls> | ok <active derived attributes> | <fields>
                                            base / assignments: `k=v;k=v` (`-` = none); assignments are applied after construction
+   ops <Class> <base> <op;op;…>           -> like `apply` (re-deriving) after a history; op = `A` (an apply) or `k=v` (an assignment)
+   construct <Class> <k=v;… every field>  -> ok | error <cls>   (attrs validation of every field, then __attrs_post_init__)
+   params <name> <range> <general> <varsettings> <kwargs> <k> -> the value `_from_variable` passes for keyword k
    has <lb> <lt> <ub> <ut>               -> six 0/1 flags (lower_threshold, lower_bound, upper_threshold, upper_bound, bound, threshold)
    isimipdefaults                        -> the four defaults
    values: none | b:0 | b:1 | i:<int> | q:<num/den> | s:<str> | o:<tag>;  extended reals: -inf | inf | <num/den>
@@ -102,6 +105,20 @@ def step (line : String) : String :=
           let rs := rulesOf d
           showView (andThen (construct rs b) (fun i0 => applyView rs (r = "1") (a.foldl (fun i p => assign i p.1 p.2) i0)))
       | _, _, _ => "bad-op"
+  | ["ops", c, base, ops] => match Deb.ofClassName c, assoc? base with
+      | some d, some b =>
+          let op? (t : String) : Option Op := if t = "A" then some .apply else (kv? t).map (fun p => Op.assign p.1 p.2)
+          (match (ops.splitOn ";").mapM op? with
+           | some os => let rs := rulesOf d
+                        showView (andThen (andThen (construct rs b) (fun i0 => runOps rs i0 os)) (applyView rs true))
+           | none => "bad-op")
+      | _, _ => "bad-op"
+  | ["construct", c, args] => match Deb.ofClassName c, assoc? args with
+      | some d, some a => (match constructChecked d a with | .ok _ => "ok" | .error e => "error " ++ e)
+      | _, _ => "bad-op"
+  | ["params", nm, rg, g, vs, kw, k] => match val? nm, val? rg, assoc? g, assoc? vs, assoc? kw with
+      | some nm, some rg, some g, some vs, some kw => (match getKV (paramsOf nm rg g vs kw) k with | none => "absent" | some v => showVal v)
+      | _, _, _, _, _ => "bad-op"
   | ["has", a, b, c, d] => match ext? a, ext? b, ext? c, ext? d with
       | some a, some b, some c, some d =>
           showB (hasLowerThreshold a b c d) ++ showB (hasLowerBound a b c d) ++ showB (hasUpperThreshold a b c d) ++
